@@ -5,7 +5,7 @@ META = {
     'level': 'proof',
     'technique': 'Lean 4 theorems about the model of detector.Run / validateAdvisories / packageindex / the tail of Scan for ALL detector lists (detectors = arbitrary functions '
                  'of the index), finding lists and inventories + seeded/exhaustive correspondence of the model with scalibr.New().Scan driven by fake extractors and detectors',
-    'design_ref': 'DESIGN.md §5 C20, Appendix A.25',
+    'design_ref': 'DESIGN.md §4 (section of C20), §5 (defects), §7 (seeded changes)',
     'text': 'Kernel-checked: every detector is called exactly once, in order, with the index of exactly the extracted packages (filesystem ++ standalone), which answers GetSpecific / '
             'GetAllOfType / GetAll as filters of that list; validateAdvisories accepts exactly the consistent finding lists; consistent advisories => the run succeeds and returns every '
             'finding tagged with its own detector, untouched otherwise — at full strength, also when detectors share finding objects (the code tags a copy since fix e8c67092); one status '
